@@ -206,6 +206,18 @@ func (p *prov) origin(v ssa.Value, d int) string {
 		if fa2, ok := x.X.(*ssa.FieldAddr); ok {
 			return p.origin(fa2, d+1) + fieldSeg(x.X.Type(), x.Field)
 		}
+		// the copy of a by-value parameter that a closure captured (`args forwardArgs` used inside the Ack closure)
+		if fv, ok := x.X.(*ssa.FreeVar); ok {
+			if b, okb := bindingOf(fv); okb {
+				if al, isAl := b.(*ssa.Alloc); isAl {
+					if s, oks := singleStore(al); oks {
+						if _, isParam := s.(*ssa.Parameter); isParam {
+							return "&" + p.origin(s, d+1) + fieldSeg(x.X.Type(), x.Field)
+						}
+					}
+				}
+			}
+		}
 		return "&" + p.origin(x.X, d+1) + fieldSeg(x.X.Type(), x.Field)
 	case *ssa.IndexAddr:
 		return "&" + p.origin(x.X, d+1) + "[" + p.origin(x.Index, d+1) + "]"
@@ -277,13 +289,25 @@ func (p *prov) load(addr ssa.Value, d int) string {
 	case *ssa.FieldAddr:
 		if al, ok := a.X.(*ssa.Alloc); ok {
 			if s, ok := singleStore(al); ok {
-				return p.origin(s, d+1) + "." + structField(a.X.Type(), a.Field).Name()
+				return p.origin(s, d+1) + fieldSeg(a.X.Type(), a.Field)
 			}
 		}
 		if fa2, ok := a.X.(*ssa.FieldAddr); ok { // &(&x.f).g  — nested struct by value
-			return strings.TrimPrefix(p.origin(fa2, d+1), "&") + "." + structField(a.X.Type(), a.Field).Name()
+			return strings.TrimPrefix(p.origin(fa2, d+1), "&") + fieldSeg(a.X.Type(), a.Field)
 		}
-		return p.origin(a.X, d+1) + "." + structField(a.X.Type(), a.Field).Name()
+		// the copy of a by-value parameter that a closure captured
+		if fv, ok := a.X.(*ssa.FreeVar); ok {
+			if b, okb := bindingOf(fv); okb {
+				if al, isAl := b.(*ssa.Alloc); isAl {
+					if s, oks := singleStore(al); oks {
+						if _, isParam := s.(*ssa.Parameter); isParam {
+							return p.origin(s, d+1) + fieldSeg(a.X.Type(), a.Field)
+						}
+					}
+				}
+			}
+		}
+		return p.origin(a.X, d+1) + fieldSeg(a.X.Type(), a.Field)
 	case *ssa.IndexAddr:
 		return p.origin(a.X, d+1) + "[" + p.origin(a.Index, d+1) + "]"
 	case *ssa.Alloc:
@@ -721,4 +745,98 @@ func embeddedPart(f *types.Var) bool {
 	}
 	_, isStruct := f.Type().Underlying().(*types.Struct)
 	return isStruct
+}
+
+// ---------------------------------------------------------------------------------------------
+// formal inputs: parameters, and the fields of a parameter bundle
+
+// vparam is a formal input of a function: one of its parameters (F < 0), or field F of a parameter that is passed by
+// value and whose type is an unexported struct of the module — a parameter bundle (`waitAndForward(args forwardArgs)`).
+type vparam struct {
+	P *ssa.Parameter
+	F int
+}
+
+func (v vparam) field() *types.Var {
+	if v.F < 0 {
+		return nil
+	}
+	return v.P.Type().Underlying().(*types.Struct).Field(v.F)
+}
+
+func (v vparam) Type() types.Type {
+	if f := v.field(); f != nil {
+		return f.Type()
+	}
+	return v.P.Type()
+}
+
+// Name: as the evaluator names the symbolic input ("offset", "args.offset").
+func (v vparam) Name() string {
+	if f := v.field(); f != nil {
+		return v.P.Name() + "." + f.Name()
+	}
+	return v.P.Name()
+}
+
+// Term: as provenance prints it ("param(offset)", "param(args).offset").
+func (v vparam) Term() string {
+	if f := v.field(); f != nil {
+		return "param(" + v.P.Name() + ")." + f.Name()
+	}
+	return "param(" + v.P.Name() + ")"
+}
+
+func isBundle(t types.Type) bool {
+	n, ok := types.Unalias(t).(*types.Named)
+	if !ok || n.Obj().Exported() || n.Obj().Pkg() == nil || !strings.HasPrefix(n.Obj().Pkg().Path(), modPath) {
+		return false
+	}
+	st, ok := n.Underlying().(*types.Struct)
+	return ok && st.NumFields() > 0 && st.NumFields() <= 10
+}
+
+// vparams: the formal inputs of fn (the receiver excluded), bundles expanded.
+func vparams(fn *ssa.Function) []vparam {
+	var out []vparam
+	ps := fn.Params
+	if fn.Signature.Recv() != nil && len(ps) > 0 {
+		ps = ps[1:]
+	}
+	for _, p := range ps {
+		if isBundle(p.Type()) {
+			st := p.Type().Underlying().(*types.Struct)
+			for i := 0; i < st.NumFields(); i++ {
+				out = append(out, vparam{p, i})
+			}
+			continue
+		}
+		out = append(out, vparam{p, -1})
+	}
+	return out
+}
+
+// isVParamOf: the term is one of fn's formal inputs.
+func isVParamOf(origin string, fn *ssa.Function) bool {
+	for _, v := range vparams(fn) {
+		if origin == v.Term() {
+			return true
+		}
+	}
+	return false
+}
+
+// argOfVParam: what a call site hands in for the formal input: the argument, or — for a bundle — the value the
+// composite literal at the call site gives that field.
+func argOfVParam(cc *ssa.CallCommon, callee *ssa.Function, v vparam) ssa.Value {
+	a := argOfParam(cc, callee, v.P)
+	if a == nil || v.F < 0 {
+		return a
+	}
+	al := asAlloc(a)
+	if al == nil {
+		return nil
+	}
+	tab, _ := allocTable(al)
+	return tab[v.field().Name()]
 }
